@@ -220,9 +220,13 @@ class Interp:
     def bin(self, a):
         if not self.box:
             return int(a)
-        a0 = float(np.asarray(a, np.float64).reshape(-1)[0])
-        low, high = float(self.low.reshape(-1)[0]), float(self.high.reshape(-1)[0])
-        b = np.floor((a0 - low) / (high - low) * self.nA)
+        # same arithmetic, same precision as the environment (bin edges are otherwise precision dependent)
+        import jax
+
+        ft = np.float64 if jax.config.jax_enable_x64 else np.float32
+        a0 = ft(np.asarray(a, np.float64).reshape(-1)[0])
+        low, high = ft(self.low.reshape(-1)[0]), ft(self.high.reshape(-1)[0])
+        b = np.floor((a0 - low) / (high - low) * ft(self.nA))
         return int(np.clip(b, 0, self.nA - 1))
 
     def step(self, s: int, count: int, a):
